@@ -146,7 +146,8 @@ def check_property_file(pid, timeout=600):
       if line.strip() == 'Axioms:':
         in_ax = True
       elif in_ax and line and not line[0].isspace():
-        m = re.match(r"([A-Za-z_][\w.']*)\s*:", line)
+        # "name : type" on one line, or the name alone when the type is printed on the following indented lines
+        m = re.match(r"([A-Za-z_][\w.']*)\s*(:|$)", line)
         if m:
           axioms.add(m.group(1))
         else:
